@@ -101,7 +101,7 @@ def analyse(obs: Obs, prog):
     sid, sc = skeleton(ev, "Scan.simulate")
     ik, ic, iv = slots(sc, "Scan.simulate")
     cin, cout = sc.carry_in[1], sc.carry_out[1]
-    inner = [c for c in mcalls(sc.carry_out, "simulate") if c[1][1] == K]
+    inner = [c for c in mcalls(("tuple", (sc.carry_out, sc.y)), "simulate") if c[1][1] == K]
     if len(inner) != 1:
         raise AnalysisError("Scan.simulate: kernel simulate call not found")
     inner = inner[0]
@@ -120,7 +120,7 @@ def analyse(obs: Obs, prog):
     sid, sc = skeleton(ev, "Scan.generate")
     ik, ic, iv = slots(sc, "Scan.generate")
     cin, cout = sc.carry_in[1], sc.carry_out[1]
-    inner = [c for c in mcalls(sc.carry_out, "generate") if c[1][1] == K]
+    inner = [c for c in mcalls(("tuple", (sc.carry_out, sc.y)), "generate") if c[1][1] == K]
     if len(inner) != 1:
         raise AnalysisError("Scan.generate: kernel generate call not found")
     inner = inner[0]
@@ -142,7 +142,7 @@ def analyse(obs: Obs, prog):
     sid, sc = skeleton(ev, "Scan.assess")
     _, ic, iv = slots(sc, "Scan.assess", want_key=False)
     cin, cout = sc.carry_in[1], sc.carry_out[1]
-    inner = [c for c in mcalls(sc.carry_out, "assess") if c[1][1] == K]
+    inner = [c for c in mcalls(("tuple", (sc.carry_out, sc.y)), "assess") if c[1][1] == K]
     if len(inner) != 1:
         raise AnalysisError("Scan.assess: kernel assess call not found")
     inner = inner[0]
@@ -175,7 +175,7 @@ def analyse(obs: Obs, prog):
         ik, ic, iv = slots(sc, f"Scan.{meth}")
         cin, cout = sc.carry_in[1], sc.carry_out[1]
         props = {"C05"} if reqk == "Update" else {"C07"}
-        inner = [c for c in mcalls(sc.carry_out, "edit")]
+        inner = [c for c in mcalls(("tuple", (sc.carry_out, sc.y)), "edit")]
         if len(inner) != 1:
             raise AnalysisError(f"Scan.{meth}: kernel edit call not found ({len(inner)})")
         inner = inner[0]
